@@ -26,7 +26,7 @@ fn skip4<const N: usize>() {
  "bound": "every packet of exactly {0} bytes",
  "desc": "skip_ipv4_header neither panics nor reads outside the packet, and what it returns is the packet after IHL*4 bytes",
  "encodes": ["net_utils::skip_ipv4_header"],
- "quick": "[0, 1, 19, 20, 21, 24, 28, 60]", "thorough": "list(range(0, 65))"}
+ "quick": "[0, 1, 19, 20, 21, 23, 24, 28, 59, 60]", "thorough": "list(range(0, 65))"}
 @*/
 
 fn skip6<const N: usize>() {
